@@ -318,8 +318,9 @@ NextFails(s, a, ir, ev) ==
 HasAuto(s, h) == h \in DOMAIN s.autos
 HasIter(s, i) == i \in DOMAIN s.iters
 
-Fails(s, ev) ==
-  CASE ev.ev = "build" -> BuildFails(ev, SpecBuild(ev))
+\* r: the specification's own construction for a build event (computed once per event)
+Fails(s, ev, r) ==
+  CASE ev.ev = "build" -> BuildFails(ev, r)
     [] ev.ev = "table" ->
          IF HasAuto(s, ev.h) THEN TableFails(s, s.autos[ev.h], ev) ELSE {"unknown_handle"}
     [] ev.ev = "search" ->
@@ -339,9 +340,8 @@ Fails(s, ev) ==
     [] ev.ev = "crash" -> {"crash"}
     [] OTHER -> {"unknown_event"}
 
-Eff(s, ev) ==
+Eff(s, ev, r) ==
   CASE ev.ev = "build" ->
-         LET r == SpecBuild(ev) IN
          IF ev.outcome = "ok" /\ r.res = "ok"
          THEN [s EXCEPT !.autos = (ev.h :> AutoOf(ev, r)) @@ @] ELSE s
     [] ev.ev = "search" ->
@@ -356,8 +356,8 @@ Eff(s, ev) ==
          [s EXCEPT !.iters = (ev.it :> IterOf(s.autos[ev.h], ev)) @@ @]
     [] ev.ev = "next" ->
          LET ir == s.iters[ev.it]
-             r  == NextCall(s.autos[ir.h].aut, ir.it, ir.syms, s.autos[ir.h].var)
-         IN [s EXCEPT !.iters[ev.it].it = r.it, !.iters[ev.it].n = @ + 1]
+             nc == NextCall(s.autos[ir.h].aut, ir.it, ir.syms, s.autos[ir.h].var)
+         IN [s EXCEPT !.iters[ev.it].it = nc.it, !.iters[ev.it].n = @ + 1]
     [] OTHER -> s
 
 \* ---------------------------------------------------------------------------
@@ -370,9 +370,10 @@ Step ==
      IF ev.ev = "reset"
      THEN st' = EmptyState /\ skip' = FALSE /\ sc' = ev.sc /\ UNCHANGED bad
      ELSE IF skip THEN UNCHANGED <<st, skip, bad, sc>>
-     ELSE LET f == Fails(st, ev) IN
+     ELSE LET r == IF ev.ev = "build" THEN SpecBuild(ev) ELSE <<>>
+              f == Fails(st, ev, r) IN
           IF f = {}
-          THEN st' = Eff(st, ev) /\ UNCHANGED <<skip, bad, sc>>
+          THEN st' = Eff(st, ev, r) /\ UNCHANGED <<skip, bad, sc>>
           ELSE /\ bad' = Append(bad, [line |-> l, sc |-> sc, ev |-> ev.ev, fails |-> SetToSeq(f)])
                /\ skip' = TRUE /\ UNCHANGED <<st, sc>>
 
